@@ -111,15 +111,17 @@ func H_C18_Parse(v *verifrt.T) {
 	// H_C18_Exact)
 	c18noColon(v, name)
 	c18noColon(v, renamed)
-	f.Received(&vRec{name: name, renamed: renamed, hash: hash, size: 42})
+	sizes := []int64{42, 1 << 31, 5 << 30}
+	size := sizes[v.Choose("size", len(sizes))]
+	f.Received(&vRec{name: name, renamed: renamed, hash: hash, size: size})
 	n := 0
 	now := time.Now()
-	f.Parse(func(pn, pr, ph string, size int64, t time.Time) bool {
+	f.Parse(func(pn, pr, ph string, psize int64, t time.Time) bool {
 		n++
 		v.Assert(pn == name, "C18.O2 replayed name")
 		v.Assert(pr == renamed, "C18.O2 replayed rename")
 		v.Assert(ph == hash, "C18.O2 replayed hash")
-		v.Assert(size == 42, "C18.O2 replayed size")
+		v.Assert(psize == size, "C18.O2 replayed size")
 		return false
 	}, now.Add(-time.Hour), now.Add(time.Hour))
 	v.Assert(n == 1, "C18.O2 every record written is replayed once")
